@@ -1793,9 +1793,8 @@ class Bits:
     @classmethod
     def fromstring(cls: TBits, s: str, /) -> TBits:
         """Create a new bitstring from a formatted string."""
-        x = super().__new__(cls)
-        x._bitstore = bitstore_helpers.str_to_bitstore(s)
-        return x
+        # Use the constructor so that mutable classes get their own copy of the (cached) store.
+        return cls(s)
 
     len = length = property(_getlength, doc="The length of the bitstring in bits. Read only.")
 
